@@ -260,5 +260,129 @@ def analyse(src, cyorder):
     return res
 
 
+# --------------------------------------------------------------------------- _line_dist
+
+def _lean(node):
+    """integer expression with calls of the function parameters -> Lean"""
+    if isinstance(node, ast.BinOp) and isinstance(node.op, (ast.Add, ast.Sub, ast.Mult)):
+        op = {ast.Add: "+", ast.Sub: "-", ast.Mult: "*"}[type(node.op)]
+        return f"({_lean(node.left)} {op} {_lean(node.right)})"
+    if isinstance(node, ast.Name):
+        return node.id
+    if isinstance(node, ast.Constant) and isinstance(node.value, int) and not isinstance(node.value, bool):
+        return str(node.value)
+    if isinstance(node, ast.Call) and isinstance(node.func, ast.Name) and not node.keywords:
+        return "(" + " ".join([node.func.id] + [_lean(a) for a in node.args]) + ")"
+    raise Untranslatable("expression " + ast.unparse(node))
+
+
+def _expr(text):
+    try:
+        return _lean(ast.parse(text.strip(), mode="eval").body)
+    except SyntaxError:
+        raise Untranslatable(f"expression {text!r}")
+
+
 def line_dist(src):
-    return []
+    """`timeseries/_ext/numerics.pyx`: the loop skeleton of `cdef _line_dist` (outer / inner range,
+    row index, histogram subscript, `skip_main`), the inline index functions `i2J_*`, `ij2I_*`, and
+    which of them each of the `def` wrappers passes -> Lean lines"""
+    text = open(os.path.join(src, "timeseries", "_ext", "numerics.pyx")).read()
+    text = re.sub(r"#[^\n]*", "", text)
+    out = ["/-! ### `timeseries/_ext/numerics.pyx`: `_line_dist` (all RQA line histograms) -/"]
+    fns = {}
+    for m in re.finditer(r"inline int (i2J_\w+|ij2I_\w+)\(([^)]*)\): return ([^\n]+)", text):
+        name, params, body = m.groups()
+        ps = [p.split()[-1] for p in params.split(",")]
+        if any(not p.strip().startswith("int ") for p in params.split(",")):
+            raise Untranslatable(f"{name}: non-int parameter")
+        fns[name] = len(ps)
+        out.append(f"def {name} ({' '.join(ps)} : Int) : Int := {_expr(body)}")
+    m = re.search(r"^cdef void _line_dist\((.*?)\):\n(.*?)(?=^def |^cdef |\Z)", text, re.S | re.M)
+    if not m:
+        raise Untranslatable("no cdef _line_dist")
+    sig = " ".join(m.group(1).split())
+    params = [p.strip().split()[-1] for p in re.sub(r"\[[^\]]*\]", "", sig).split(",")]
+    body = m.group(2)
+    body = re.sub(r'"""(.*?)"""', "", body, flags=re.S)
+    if not re.search(r"\bN = n_time\b", body):
+        raise Untranslatable("_line_dist: `N = n_time` not found")
+    ms = re.search(r"if skip_main:\s*\n\s*N (-=|\+=) (\d+)\s*\n", body)
+    if not ms:
+        raise Untranslatable("_line_dist: `if skip_main: N -= 1` not found")
+    loops = re.findall(r"for (\w+) in range\(([^\n]*)\):", body)
+    if [v for v, _ in loops] != ["i", "j"]:
+        raise Untranslatable(f"_line_dist: loops {loops}")
+    mi = re.findall(r"^\s*I = ([^\n]+)$", body, re.M)
+    if len(mi) != 1:
+        raise Untranslatable("_line_dist: assignment of I")
+    hs = set(" ".join(h.split()) for h in re.findall(r"hist\[([^\]]*)\]", body))
+    if len(hs) != 1:
+        raise Untranslatable(f"_line_dist: histogram subscripts {hs}")
+    subs = sorted(set(re.findall(r"\b(R|M|E|hist)\[([^\]]*)\]", body)))
+    out.append("/-- `N = n_time; if skip_main: N -= 1` -/")
+    out.append(f"def ld_N (n_time : Int) (skip_main : Bool) : Int := if skip_main then n_time "
+               f"{'-' if ms.group(1) == '-=' else '+'} {ms.group(2)} else n_time")
+    out.append("/-- `for i in range(·)` -/")
+    out.append(f"def ld_outer (N : Int) : Int := {_expr(loops[0][1])}")
+    out.append("/-- `for j in range(·)` -/")
+    out.append(f"def ld_inner (i2J : Int → Int → Int) (i N : Int) : Int := {_expr(loops[1][1])}")
+    out.append("/-- `I = ·` -/")
+    out.append(f"def ld_I (ij2I : Int → Int → Int → Int) (i j N : Int) : Int := {_expr(mi[0])}")
+    out.append("/-- `hist[·] += 1` (both occurrences) -/")
+    out.append(f"def ld_hist_idx (k : Int) : Int := {_expr(hs.pop())}")
+    out.append("/-- every subscript of a buffer in the body of `_line_dist` -/")
+    out.append("def ld_subscripts : List (String × String) := [" + ", ".join(
+        f'("{a}", "{" ".join(e.split())}")' for a, e in subs) + "]")
+    # metric_supremum(I, j, dim, E): `for l in range(dim)`, E[I, l], E[j, l]
+    mm = re.search(r"inline DFIELD_t metric_supremum\(([^)]*)\):\n(.*?)return diff", text, re.S)
+    if not mm:
+        raise Untranslatable("no metric_supremum")
+    ml = re.findall(r"for (\w+) in range\(([^\n]*)\):", mm.group(2))
+    msub = sorted(set(re.findall(r"\b(E)\[([^\]]*)\]", mm.group(2))))
+    out.append("/-- `metric_supremum`: loops and subscripts -/")
+    out.append("def ld_metric_loops : List (String × String) := [" + ", ".join(
+        f'("{a}", "{b.strip()}")' for a, b in ml) + "]")
+    out.append("def ld_metric_subscripts : List (String × String) := [" + ", ".join(
+        f'("{a}", "{" ".join(e.split())}")' for a, e in msub) + "]")
+    # the wrappers
+    out.append("/-- one `def` wrapper around `_line_dist`: name, the index functions and flags it passes;")
+    out.append("`seq`: the recurrence test is computed from the embedding (`dim` is passed through) -/")
+    out.append("structure LDWrap where")
+    out += ["  name : String", "  i2J : Int → Int → Int", "  ij2I : Int → Int → Int → Int",
+            "  skip : Bool", "  mv : Bool", "  seq : Bool", "  black : Bool", "  fns : String × String"]
+    rows = []
+    for w in re.finditer(r"^def (_\w+)\((.*?)\):\n(.*?)(?=^def |^cdef |^# |\Z)", text, re.S | re.M):
+        name, _, wb = w.groups()
+        k = wb.find("_line_dist(")
+        if k < 0:
+            continue
+        depth, e = 0, k + len("_line_dist")
+        for e in range(k + len("_line_dist"), len(wb)):
+            depth += wb[e] == "("
+            depth -= wb[e] == ")"
+            if depth == 0:
+                break
+        args = [" ".join(a.split()) for a in wb[k + len("_line_dist("):e].split(",")]
+        if len(args) != len(params):
+            raise Untranslatable(f"{name}: {len(args)} arguments for _line_dist")
+        a = dict(zip(params, args))
+        if a["i2J"] not in fns or a["ij2I"] not in fns or fns[a["i2J"]] != 2 or fns[a["ij2I"]] != 3:
+            raise Untranslatable(f"{name}: index functions {a['i2J']}, {a['ij2I']}")
+        for flag in ("skip_main", "missing_values", "black"):
+            if a[flag] not in ("True", "False"):
+                raise Untranslatable(f"{name}: {flag} = {a[flag]}")
+        if a["n_time"] != "n_time" or a["hist"] != "hist":
+            raise Untranslatable(f"{name}: n_time / hist are not passed through")
+        seq = a["dim"] != "0"
+        if seq and a["dim"] != "dim":
+            raise Untranslatable(f"{name}: dim = {a['dim']}")
+        b = lambda x: "true" if x == "True" else "false"  # noqa
+        rows.append(f'⟨"{name}", {a["i2J"]}, {a["ij2I"]}, {b(a["skip_main"])}, '
+                    f'{b(a["missing_values"])}, {"true" if seq else "false"}, {b(a["black"])}, '
+                    f'("{a["i2J"]}", "{a["ij2I"]}")⟩')
+    if not rows:
+        raise Untranslatable("no wrapper of _line_dist found")
+    out.append("def line_dist_wrappers : List LDWrap :=\n  [" + ",\n   ".join(rows) + "]")
+    out.append("")
+    return out
